@@ -7,6 +7,8 @@
 #include "common.h"
 #include <stdlib.h>
 #include "opus_parse.h"
+#include "opus.h"
+#include "opus_private.h"
 static int g_count;
 int opus_packet_parse_impl(const unsigned char *data, opus_int32 len, int self_delimited, unsigned char *out_toc,
       const unsigned char *frames[48], opus_int16 size[48], int *payload_offset, opus_int32 *packet_offset,
